@@ -618,6 +618,13 @@ fn cmd_roundtrip(args: &[String]) {
                 }
                 (k.to_string(), v)
             }).collect();
+            // keep the whole message within the 65,535 attribute bytes a STUN message can carry
+            // (conservative estimate: at least two JSON characters per value byte)
+            let mut budget = 65_000usize;
+            let attrs: Vec<(String, Value)> = attrs.into_iter().filter(|(_, v)| {
+                let est = v.to_string().len() / 2 + 8;
+                if est <= budget { budget -= est; true } else { false }
+            }).collect();
             let mut txid = [0u8; 12];
             rng.fill(&mut txid);
             let method: u16 = if rng.random_range(0..3) == 0 { rng.random_range(0..0x1000) } else { *[1u16, 3, 4, 6, 7, 8, 9][rng.random_range(0..7)..].first().unwrap() };
